@@ -17,6 +17,9 @@ TRUSTED_BASE_COMMON = [
     "returned error class) to the hand-written program of Node.v the theorems are about, for every state and every oracle answer; the "
     "translator skips logging / tracing / span-index statements and the transport-option and channel-monitor wiring (not in the node model), "
     "orders a `go func(){...}()` after the rest of the function's effects (the order the harness forces) and refuses anything else",
+    "gen/GenCaches.v: the three decisions of channels/caches.go (does a report advance the high-water mark and to what; the pause signal "
+    "from limit and total after the one atomic add; what a limit update does to the cache) translated from fixed statement shapes by "
+    "tools/dt2coq/caches.go; proofs/CacheEq.v proves Caches.fire / Caches.set_limit are built from exactly these decisions",
     "correspondence harness /verif/harness (Go, built from /repo's working tree with -tags verif): doubles, printers of "
     "cases_*.v, canonicalisation; correspondence is differential testing, exhaustive only where stated",
     "go-statemachine / go-statestore / go-ds-versioning are modelled (coq/model/Machine.v), not verified",
